@@ -92,4 +92,29 @@ def clientSTS (o : Served) : List Str :=
   | .forward k _ _ resp => if responseWrittenByFabio k then ((entries stsName resp).flatMap (·.2)) else []
   | _ => []
 
+/-! ### informational responses of the upstream (repo `3162882`)
+
+`httputil.ReverseProxy` relays every 1xx response of the upstream (103 Early Hints, …) with the response header
+map as it stands — fabio's Strict-Transport-Security included — and then **clears the map**. Before the repair
+the final response therefore went out without the headers `ServeHTTP` had added (found by the C07 builder,
+reproduced by `c08.proxy` / `c08.main`, class `upstream-1xx`). `responseWriter` now remembers what was in the map
+before the handler ran and puts back what is missing when the final header is written. -/
+
+/-- the response header map after `n` informational responses were relayed -/
+def afterInformational (n : Nat) (w : Headers) : Headers := if n = 0 then w else []
+
+/-- `responseWriter.restoreHeaders`: every remembered header that is no longer in the map is put back -/
+def restoreHeaders (keep w : Headers) : Headers := w ++ keep.filter (fun e => (vals e.1 w).isNone)
+
+/-- what `ServeHTTP` added to the response, as it is when the final response header is written -/
+def finalResponseHeaders (n1xx : Nat) (resp : Headers) : Headers := restoreHeaders resp (afterInformational n1xx resp)
+
+/-- The Strict-Transport-Security values the client reads in the final response when the upstream sent `n1xx`
+informational responses first. -/
+def clientSTSAfter (n1xx : Nat) (o : Served) : List Str :=
+  match o with
+  | .forward k _ _ resp =>
+    if responseWrittenByFabio k then ((entries stsName (finalResponseHeaders n1xx resp)).flatMap (·.2)) else []
+  | _ => []
+
 end Fabio.Model.C08
